@@ -304,6 +304,13 @@ GoalFlushRacesFault ==
                      /\ rdr.pc = "offer" /\ rdr.r = f /\ act.a \in {"fault.write", "fault.ctx"}
 NeverFlushRacesFault == ~GoalFlushRacesFault
 
+\* The writer is still busy with an earlier reply (the client is slow to read), the serve loop is waiting to hand it
+\* the reply of request X, and the flush of X has already been read: the replies must come out in that order
+GoalFlushBehindBlockedReply ==
+  /\ wr.pc = "write" /\ loop.pc = "fwd" /\ rdr.pc = "offer"
+  /\ req[rdr.r].kind = "flush" /\ req[rdr.r].old = loop.resp.tag /\ loop.resp.kind = "res"
+NeverFlushBehindBlockedReply == ~GoalFlushBehindBlockedReply
+
 \* liveness
 \* C11: serving returns once the connection is closed or the context cancelled
 ShutdownPrompt == (closed \/ ctxc) ~> (loop.pc = "ret")
